@@ -641,13 +641,13 @@ Qed.
 
 (** ** Issued versus verified.  ConfirmBatch checks a confirmation against the checkpoint
     RECOMPUTED for the deployment id in force when the confirmation arrives, the queries serve the
-    STORED BytesToSign.  As long as the id has not changed since the record was written the two
-    coincide; after a redeploy they differ for every outstanding batch: the published (archived)
+    STORED BytesToSign.  As long as the id the record was written under is in force the two
+    coincide (this section).  On a tree that does not re-issue open batches when a compass is
+    activated they differ after a redeploy for every outstanding batch: the published (archived)
     checkpoint can no longer be confirmed, and the only checkpoint ConfirmBatch accepts a signature
-    over was never published nor archived -- whoever produces an acceptable confirmation is exposed
-    to the evidence handler.  (No clause of C13 is violated: the chain did not ask for that
-    signature.  It is a liveness defect and a trap for a relayer that computes the checkpoint
-    itself.) *)
+    over was never published nor archived ([confirm_after_redeploy_checks_unpublished]; no clause of
+    C13 is violated: the chain did not ask for that signature).  The code as it is re-issues on
+    activation, which keeps every stored BytesToSign in step with the id in force ([Synced] below). *)
 Section Verified.
   Context {Sig : Type}.
   Variable cp : Z -> Z -> Z -> Z.
